@@ -34,6 +34,7 @@ func genFileSpec(t *Tape, allowBig bool) FileSpec {
 		}
 		fs.Members = append(fs.Members, p)
 	}
+	fs.ExtraBC = t.Chance("work", 1, 8)
 	return fs
 }
 
@@ -385,9 +386,9 @@ func shrinkFileSpec(fs FileSpec, hist []ROp) ([]FileSpec, [][]ROp) {
 			ho = append(ho, nh)
 		}
 	}
-	if fs.ExtraA || fs.ExtraB || fs.Stored {
+	if fs.ExtraA || fs.ExtraB || fs.Stored || fs.ExtraBC {
 		n := fs
-		n.ExtraA, n.ExtraB, n.Stored = false, false, false
+		n.ExtraA, n.ExtraB, n.Stored, n.ExtraBC = false, false, false, false
 		fo = append(fo, n)
 		ho = append(ho, hist)
 	}
